@@ -141,6 +141,15 @@ func (o *Obligation) BuildQuery() string {
 		if used["rtype_size"] {
 			facts = append(facts, "(forall ((r!s Int)) (> (rtype_size r!s) 0))")
 		}
+		if used["rtype_kind"] && used["rtype_size"] {
+			// a type of a fixed-size basic kind has that kind's size (gc/amd64), whatever its name
+			for _, ks := range [][2]int{{1, 1}, {2, 8}, {3, 1}, {4, 2}, {5, 4}, {6, 8}, {7, 8}, {8, 1}, {9, 2}, {10, 4}, {11, 8}, {12, 8}, {13, 4}, {14, 8}, {15, 8}, {16, 16}, {24, 16}, {26, 8}} {
+				name := fmt.Sprintf("lit_E_uint_%d", ks[0])
+				if used[name] {
+					facts = append(facts, fmt.Sprintf("(forall ((r!k Int)) (! (=> (= (rtype_kind r!k) %s) (= (rtype_size r!k) %d)) :pattern ((rtype_kind r!k))))", name, ks[1]))
+				}
+			}
+		}
 		if used["rtype_kind"] {
 			for _, id := range ids {
 				if b, ok := x.rtypeUsed[id].Underlying().(*types.Basic); ok {
